@@ -78,10 +78,9 @@ def surface(ck, tier, binary):
         for p in parts:
             m.write(open(p).read())
     rows = vlib.read_ndjson(merged)
-    bad = []
-    acc, prefix, res = validate_trace("conc/SharedMemTrace", merged, timeout=3000, json_sink=bad.append, heap="8g")
+    acc, bad, res, _a = c19_planners.validate_announced("conc/SharedMemTrace", merged, timeout=3000, heap="8g")
     if not acc:
-        raise FrameworkError("concurrency trace not consumed (event %s): %s" % (prefix + 1, res.out[-1200:]))
+        raise FrameworkError("concurrency trace not consumed (stopped at depth %s): %s" % (res.depth, res.out[-1200:]))
     seen = set()
     for b in bad:
         for clause in sorted(b["failed"]):
